@@ -262,7 +262,7 @@ fn answer_pre(p: &Preprocessor, text: &str) -> String {
     labels.sort();
     let mut fns: Vec<(String, usize)> = ctx.fn_map.iter().map(|(k, v)| (k.clone(), *v)).collect();
     fns.sort();
-    let mut und: Vec<(usize, String)> = ctx.undefined_labels.iter().cloned().collect();
+    let mut und: Vec<(usize, String)> = ctx.undefined_labels.iter().map(|(a, b)| (*a, b.clone())).collect();
     und.sort();
     let mut sm: Vec<(usize, usize)> = ctx.mapper.get_source_map().into_iter().collect();
     sm.sort();
